@@ -174,13 +174,14 @@ func searchIndex(p *binary.BinaryProtocol, idx int, elementWireType proto.WireTy
 				if cnt < idx {
 					p.Read += n
 				}
-				result = p.Read + n
 			}
 		}
 		if !more {
 			// the list ended exactly before element number idx (idx == element count)
 			return p.Read, errNotFound
 		}
+		// found: the element's tag position (the length prefix of a message element is re-written from there)
+		result = p.Read
 	}
 
 	if cnt < idx {
